@@ -123,6 +123,8 @@ def _shape(clause: str, rec) -> str:
     k = 1 if b[0] in PRE_SET else 0
     op = b[k]
     mode = f":m{b[k + 1] >> 4:X}" if op in (0xE3, 0xEB) else ""          # register-indirect block moves: which addressing form
+    if op in (0x10, 0xC0, 0xC1, 0xC2, 0xDB):
+        mode = ":pre" if k == 1 else ":nopre"                              # (the recorded finding concerns the prefixed forms only)
     return f"op{op:02X}" + mode + (":absbits" if _abs_hi(b, k, op) else "") + (":fhigh" if rec.get("seed", 0) < 0 else "") + (":block" if rec.get("seed", 0) >= BLOCK else "")
 
 
@@ -176,6 +178,17 @@ def programs(cr: CheckRun, nprog: int, nsteps: int) -> None:
     finally:
         vh.close()
     cr.cov["programs"] = cr.cov.get("programs", 0) + done
+
+
+def c04_overlaps(seed: int) -> List[bytes]:
+    rnd = random.Random(seed + 91)
+    out = []
+    for op in (0xC0, 0xC1, 0xC2, 0xC8, 0xC9, 0xCA, 0xCB, 0xCF, 0xC3):       # EX EXW EXP MV MVW MVP MVL MVLD EXL (m),(n)
+        for _ in range(10):
+            m = rnd.randrange(0x08, 0xD0)
+            n = (m + rnd.choice([-2, -1, 1, 2])) & 0xFF
+            out.append(bytes([op, m, n]))
+    return out
 
 
 def call_programs(cr: CheckRun, nprog: int) -> None:
@@ -280,6 +293,11 @@ def run(cr: CheckRun) -> None:
         if en.opcode_of(e) in (0x2E, 0x4F, 0xFE):          # instructions that store F: once more with the upper bits of F set
             rid += 1
             items.append((rid, e, -rnd.getrandbits(30) - 1))
+    # two internal-memory operands that overlap without being identical (EXW / EXP / MVW / MVP / block forms: the order of the
+    # loads and write-backs shows only there)
+    for e in c04_overlaps(cr.seed):
+        rid += 1
+        items.append((rid, e, rnd.getrandbits(30)))
     # block lengths that need both bytes of I, for the block moves with an external operand.  The internal operand then sweeps
     # the whole internal memory, where the cores are known to differ (C04 finding: the Python core leaves the internal memory at
     # its ends), so the VALUES moved are not comparable; registers, flags and the set of external addresses written are.
